@@ -33,6 +33,16 @@ func NewSrv(cfg transport.ServerConfig) *Srv {
 	return &Srv{S: s, Conn: conn, Addr: addr, raw: make([]byte, 65535), hw: make([]byte, 65535)}
 }
 
+// NewSrvFrom wraps a transport.Server built elsewhere (hopserver.NewHopServer): its socket is
+// replaced by the driver's connection and it is stepped like the others.
+func NewSrvFrom(s *transport.Server) *Srv {
+	addr := Addr("10.9.9.9", 77)
+	conn := &SrvConn{Local: addr}
+	s.VerifHsSetConn(conn)
+	s.VerifHsSetServing()
+	return &Srv{S: s, Conn: conn, Addr: addr, raw: make([]byte, 65535), hw: make([]byte, 65535)}
+}
+
 // SingleConfig: the server configuration for one identity (the code builds GetCertificate itself).
 func SingleConfig(id *Ident, cv *transport.VerifyConfig, hidden bool) transport.ServerConfig {
 	return transport.ServerConfig{KeyPair: id.Key, KEMKeyPair: id.KEM, Certificate: id.Leaf, Intermediate: id.Inter,
